@@ -386,6 +386,14 @@ class ApplyLayoutCastMemrefGlobal(RewritePattern):
         global_op = SymbolTable.lookup_symbol(op, const_source.name_)
         if not isinstance(global_op, memref.GlobalOp):
             return
+        # nobody else may refer to the global, it is going to be replaced
+        symbol_table_op = global_op.parent_op()
+        assert symbol_table_op is not None
+        if any(
+            isinstance(other, memref.GetGlobalOp) and other is not const_source and other.name_ == const_source.name_
+            for other in symbol_table_op.walk()
+        ):
+            return
         # the initial value is only stored row-major as long as the global has no layout
         if not isa(global_type := global_op.type, builtin.MemRefType[Attribute]):
             return
